@@ -181,6 +181,15 @@ def run(R, tier, seed, driver_ok):
                 R.violation(f'{name}.pickle/{nm}', f'{label}: {nm} differs after a pickle round trip', {'cls': label, 'output': nm})
         if repr(est.get_params()) != repr(e2.get_params()):
             R.violation(f'{name}.pickle/params', f'{label}: get_params differs after a pickle round trip', {'cls': label})
+        # clone of the unpickled estimator: every parameter object went through pickle (the 'deprecated' sentinel of the
+        # aliases is then an equal string, not the literal), and the constructor must still store each one unmodified
+        R.case(('c18', label, 'clone-after-pickle', X.tobytes().hex()[:32]), True, branch='clone-after-pickle')
+        try:
+            c2 = clone(e2)
+            if repr(c2.get_params()) != repr(e2.get_params()):
+                R.violation(f'{name}.clone/after-pickle/params', f'{label}: clone of the unpickled estimator has other parameters', {'cls': label})
+        except RuntimeError as e:
+            R.violation(f'{name}.clone/after-pickle/deprecated-alias-identity', f'{label}: clone raises RuntimeError after a pickle round trip: {str(e)[:160]}', {'cls': label})
 
     # 7. parameters stay untouched through fit: what get_params returns after fit is the identical object with the
     #    contents it had at construction, so that clone(fitted) and a refit behave like the first fit
